@@ -13,16 +13,17 @@ Reading guide
 * an event          : `Event` = the `struct sched_gsmtime_event` linked into a list; its identity while it is pending
                       is `slot`, the array element it occupies.  A `Call` records one `tdma_schedule_set` call made by
                       `sched_gsmtime_execute` together with the slot of the event it was made for.
-* `target fn`       : `(uint32_t) (fn + SCHEDULE_AHEAD)` = `(fn mod 2^32 + 2) mod 2^32`.
+* `target fn`       : `fn_sched = (fn + SCHEDULE_AHEAD) % GSM_MAX_FN`, the sum in 32 bit unsigned:
+                      `((fn mod 2^32 + 2) mod 2^32) mod 2715648`; `(fn + 2) mod 2715648` for `fn < GSM_MAX_FN`.
 * a frame interrupt : `l1Sync` = requests `pre`; `tdma_sched_execute()`; requests `mid` (`mframe_schedule()`);
                       `sched_gsmtime_execute(fn)`; `tdma_sched_advance()` — the order of `l1_sync()` in layer1/sync.c.
                       `runFrames` = consecutive frame interrupts.  Requests are `sched_gsmtime()` / `tdma_schedule*()`
                       calls (`FrameNoGexec`, resp. admissible ones that do not schedule the observed item:
                       `FrameTraffic`); `sched_gsmtime()` is never called from inside `sched_gsmtime_execute()`.
-* frame arithmetic  : an event for frame `F` is handed over by `sched_gsmtime_execute(F - 2)` with frame offset
+* frame arithmetic  : an event for frame `F` is handed over by `sched_gsmtime_execute((F - 2) mod GSM_MAX_FN)` with frame offset
                       `SCHEDULE_AHEAD - SCHEDULE_LATENCY = 1`; the scheduler advances at the end of that interrupt, so
                       the k-th frame of its item set runs in the `tdma_sched_execute()` of frame `F - 1 + k`
-                      (`F - SCHEDULE_LATENCY` for k = 0).
+                      (`F - SCHEDULE_LATENCY` for k = 0), all frame numbers modulo `GSM_MAX_FN`.
 -/
 import OsmoVerif.Lemmas.SchedGsmtimeTdma
 
@@ -35,12 +36,13 @@ open OsmoVerif.Spec.TdmaSched (AItem At)
 
 /-- The constants of the current tree, as the C compiler sees them: 16 event slots, `SCHEDULE_AHEAD = 2`,
 `SCHEDULE_LATENCY = 1`, the frame offset argument `(uint8_t)(2 - 1) = 1` (also as the model computes it),
-`EBUSY = 16`, `uint32_t fn`, `uint16_t p3`, `fn + SCHEDULE_AHEAD` computed in 32 bit unsigned,
-`GSM_MAX_FN = 2715648`, and the function types the model assumes. -/
+`EBUSY = 16`, `uint32_t fn`, `uint16_t p3`, `fn + SCHEDULE_AHEAD` and its reduction modulo `GSM_MAX_FN` computed in
+32 bit unsigned, `GSM_MAX_FN = 2715648`, and the function types the model assumes. -/
 theorem gen_consts :
     Gen.sgNumEvents = 16 ∧ Gen.sgScheduleAhead = 2 ∧ Gen.sgScheduleLatency = 1 ∧ Gen.sgFrameOffset = 1 ∧
     frameOffset = Gen.sgFrameOffset ∧ Gen.sgEBUSY = 16 ∧ eBusy = -16 ∧
     Gen.sgWidth_fn = (32, false) ∧ Gen.sgWidth_p3 = (16, false) ∧ Gen.sgWidth_sum = (32, false) ∧
+    Gen.sgWidth_mod = (32, false) ∧
     Gen.sgGsmMaxFn = 2715648 ∧ Gen.sgSignatures = (true, true) := by
   repeat' apply And.intro
   all_goals decide
@@ -108,7 +110,7 @@ theorem sched_accepts (g : GState) (si : List Item) (fn p3 : Nat) (h : GInv g) (
     exact this _ hmem _ (List.mem_cons_self ..) rfl
 
 /-- **What one `sched_gsmtime_execute(fn)` does.**  On a state satisfying the invariant the call makes exactly
-one `tdma_schedule_set(1, si, p3)` call for every pending event with `evt->fn == (uint32_t)(fn + 2)`, in list
+one `tdma_schedule_set(1, si, p3)` call for every pending event with `evt->fn == fn_sched` (`target fn`), in list
 order (= order of acceptance), returns their number, unlinks exactly these events (their slots are free again)
 and leaves every other event pending, in order.  In particular the early `break` at the first event with a
 larger `fn` never cuts off an event that is due, and an event with a smaller `fn` (too late, see
@@ -124,7 +126,7 @@ theorem execute_fires_exactly (g g' : GState) (s s' : Sched) (fn : Nat) (num : I
   exact ⟨h4, h3, by rw [h1]; rfl, by rw [h1]; rfl, h2⟩
 
 /-- **A due event fires whatever else is pending** (the `break` test): every pending event with
-`evt->fn == (uint32_t)(fn + 2)` gets its call — exactly one with its slot, carrying its item set and `p3` — no
+`evt->fn == fn_sched` gets its call — exactly one with its slot, carrying its item set and `p3` — no
 matter which events with smaller (stale) or larger `fn` are in the list. -/
 theorem due_event_fires (g g' : GState) (s s' : Sched) (fn : Nat) (num : Int) (cs : List Call) (ev : Event)
     (h : GInv g) (he : execute g s fn = .ok (g', s', num, cs)) (hev : ev ∈ g.active)
@@ -150,7 +152,7 @@ theorem other_event_stays (g g' : GState) (s s' : Sched) (fn : Nat) (num : Int) 
 
 /-! ### exactly once -/
 
-/-- **Exactly once, at the first frame interrupt whose `fn + 2` (32 bit) is the event's frame.**  For a pending
+/-- **Exactly once, at the first frame interrupt whose `fn_sched` is the event's frame.**  For a pending
 event `ev` and any sequence of frame interrupts (any frame numbers) whose requests contain no
 `sched_gsmtime_execute` / `sched_gsmtime_reset`: in every frame up to and including the first one with
 `target fn = ev.fn`, `sched_gsmtime_execute` makes no call for the event's slot if `target fn ≠ ev.fn`, and
@@ -210,167 +212,33 @@ theorem fires_exactly_once (env : Env) (st st' : Sys) (ev : Event) (frs : List F
   · rw [← h5.1]; exact n2
   · rw [← h5.1]; exact m2
 
-/-- frame numbers stepping by one from `fn0` (no reduction) -/
-def Stepping (fn0 : Nat) (frs : List Frame) : Prop := ∀ i fr, frs[i]? = some fr → fr.fn = fn0 + i
+/-! ### frame arithmetic
 
-instance (fn0 : Nat) (frs : List Frame) : Decidable (Stepping fn0 frs) :=
-  decidable_of_iff (∀ i, i < frs.length → ∀ fr, frs[i]? = some fr → fr.fn = fn0 + i)
-    ⟨fun h i fr hf => h i (TdmaSched.lt_of_get? _ _ _ hf) fr hf, fun h i _ fr hf => h i fr hf⟩
-
-/-- **Exactly once, in frame `F − SCHEDULE_AHEAD`.**  A request for frame `F` accepted while the next
-`sched_gsmtime_execute` is the one of frame `fn0`, with `fn0 + 2 ≤ F < 2^32`, frame numbers stepping by one
-(no wrap), no reset: `sched_gsmtime` returns 0, and in the frames `fn0, fn0 + 1, …, F − 2` exactly one
-`tdma_schedule_set` call is made for the new event — in frame `fn = F − 2` — with frame offset 1, the `si` and
-the `(uint16_t) p3` of the request.  (Called between two frame interrupts, after the one of frame `c`, the next
-`sched_gsmtime_execute` is the one of frame `c + 1`: the request must be for `F ≥ c + 3`, which is what
-`l1a_rach_req` does with `offset += 3`.) -/
-theorem accepted_fires_exactly_once (env : Env) (st st' : Sys) (si : List Item) (F p3 fn0 : Nat)
-    (frs : List Frame) (outs : List FrameOut) (hinv : GInv st.g) (hroom : st.g.active.length < 16)
-    (hF : F < 4294967296) (hahead : fn0 + 2 ≤ F) (hlen : frs.length ≤ F - 2 - fn0 + 1)
-    (hstep : Stepping fn0 frs) (hno : ∀ fr ∈ frs, FrameNoGexec fr)
-    (hrun : runFrames env ⟨(sched st.g si F p3).1, st.s⟩ frs = .ok (st', outs)) :
-    (sched st.g si F p3).2 = 0 ∧
-    ∃ ev ∈ (sched st.g si F p3).1.active, ev.si = si ∧ ev.fn = F ∧ ev.p3 = u16 p3 ∧
-      ∀ i o, outs[i]? = some o →
-        (o.calls.filter (fun c => c.slot = ev.slot)).length = (if fn0 + i + 2 = F then 1 else 0) ∧
-        ∀ c ∈ o.calls, c.slot = ev.slot → c.off = 1 ∧ c.si = si ∧ c.p3 = u16 p3 := by
-  obtain ⟨ev, h0, h1, h2, h3, _, _, hperm, _, _⟩ := sched_accepts st.g si F p3 hinv hroom
-  have hfn : ev.fn = F := by rw [h2]; simp only [u32]; omega
-  have hmem : ev ∈ (sched st.g si F p3).1.active := hperm.mem_iff.mpr (List.mem_cons_self ..)
-  refine ⟨h0, ev, hmem, h1, hfn, h3, ?_⟩
-  have hlen' : outs.length = frs.length := runFrames_length env _ _ _ _ hrun
-  intro i o ho
-  have hi : i < frs.length := by rw [← hlen']; exact TdmaSched.lt_of_get? _ _ _ ho
-  have hfr : frs[i]? = some frs[i] := by simp [hi]
-  have hfi := hstep i _ hfr
-  obtain ⟨r1, r2⟩ := fires_at_first_hit env frs ⟨(sched st.g si F p3).1, st.s⟩ st' outs ev
-    (sched_inv st.g si F p3 hinv) hmem hno hrun i _ o hfr ho
-    (by
-      intro j fr' hj hfr'
-      rw [hstep j fr' hfr', target_small _ (by omega)]
-      omega)
-  rw [hfi, target_small _ (by omega)] at r1 r2
-  by_cases hh : fn0 + i + 2 = F
-  · obtain ⟨c, hc1, hc2⟩ := r2 (by omega)
-    simp only [hh, if_true, hc1, List.length_singleton, true_and]
-    intro c' hc' hs
-    have : c' ∈ o.calls.filter (fun c => c.slot = ev.slot) := by simp [hc', hs]
-    rw [hc1] at this
-    rw [List.mem_singleton.mp this]
-    exact ⟨by rw [hc2.2.1]; exact frameOffset_eq, by rw [hc2.2.2.1, h1], by rw [hc2.2.2.2, h3]⟩
-  · have := r1 (by omega)
-    simp only [hh, if_false, this, List.length_nil, true_and]
-    intro c' hc' hs
-    have : c' ∈ o.calls.filter (fun c => c.slot = ev.slot) := by simp [hc', hs]
-    rw [‹o.calls.filter (fun c => c.slot = ev.slot) = []›] at this
-    simp at this
-
-/-- **A request that comes too late never fires — and blocks nothing.**  An event for frame `F` that is pending
-when the next `sched_gsmtime_execute` is the one of frame `fn0` with `F < fn0 + 2` (too close, or already past):
-with frame numbers stepping by one and no 32-bit wrap (`fn0 + n + 1 < 2^32`), no frame makes a call for it, and
-it stays pending (its slot stays taken) — until `sched_gsmtime_reset()`, or until the frame counter comes round
-to `F − 2` again (`wrap_partial`).  That other events fire on time in spite of it is `due_event_fires` /
-`accepted_fires_exactly_once`, which hold for every state satisfying the invariant. -/
-theorem stale_never_fires (env : Env) (st st' : Sys) (ev : Event) (fn0 : Nat) (frs : List Frame)
-    (outs : List FrameOut) (hinv : GInv st.g) (hev : ev ∈ st.g.active) (hlate : ev.fn < fn0 + 2)
-    (hnowrap : fn0 + frs.length + 1 < 4294967296) (hstep : Stepping fn0 frs)
-    (hno : ∀ fr ∈ frs, FrameNoGexec fr) (hrun : runFrames env st frs = .ok (st', outs)) :
-    (∀ o ∈ outs, o.calls.filter (fun c => c.slot = ev.slot) = []) ∧ ev ∈ st'.g.active ∧
-      st'.g.active.length ≥ 1 := by
-  have hmiss : ∀ fr ∈ frs, FrameNoGexec fr ∧ target fr.fn ≠ ev.fn := by
-    intro fr hfr
-    obtain ⟨i, hi⟩ := List.mem_iff_getElem?.mp hfr
-    have hlt := TdmaSched.lt_of_get? _ _ _ hi
-    rw [hstep i fr hi, target_small _ (by omega)]
-    exact ⟨hno fr hfr, by omega⟩
-  obtain ⟨_, h2, h3⟩ := frames_miss env frs st st' outs ev hinv hev hmiss hrun
-  exact ⟨h3, h2, List.length_pos_of_mem h2⟩
-
-/-! ### the hyperframe wrap
-
-The firmware counts frames modulo `GSM_MAX_FN = 2715648` (`l1s_time_inc`, sync.c) and both callers reduce the
-frame number they ask for modulo `GSM_MAX_FN` (prim_rach.c `fn_sched %= GSM_MAX_FN`, prim_freq.c
-`if (fn_sched >= GSM_MAX_FN) fn_sched -= GSM_MAX_FN`), but `sched_gsmtime_execute` compares `evt->fn` with the
-unreduced `fn + SCHEDULE_AHEAD`. -/
+The firmware counts frames modulo `GSM_MAX_FN = 2715648` (`l1s_time_inc`, sync.c), both callers reduce the frame
+number they ask for modulo `GSM_MAX_FN` (prim_rach.c `fn_sched %= GSM_MAX_FN`, prim_freq.c
+`if (fn_sched >= GSM_MAX_FN) fn_sched -= GSM_MAX_FN`), and `sched_gsmtime_execute` compares `evt->fn` with
+`fn_sched = (fn + SCHEDULE_AHEAD) % GSM_MAX_FN`.  For an event for frame `F` that is pending when the next
+`sched_gsmtime_execute` is the one of frame `fn0`, `d = (F − fn0) mod GSM_MAX_FN` (written
+`(F + 2715648 - fn0) % 2715648`) is how many frames ahead it is.  (Before repo fix F21 the comparison was with
+the unreduced `fn + SCHEDULE_AHEAD` and events for the frames 0 and 1 were never handed over.) -/
 
 /-- frame numbers as the firmware counts them: stepping by one modulo `GSM_MAX_FN` -/
 def SteppingMod (fn0 : Nat) (frs : List Frame) : Prop :=
   ∀ i fr, frs[i]? = some fr → fr.fn = (fn0 + i) % 2715648
 
-/-- The full statement: an event for frame `F` that is pending when the next `sched_gsmtime_execute` is the one
-of frame `fn0`, `d = (F − fn0) mod GSM_MAX_FN ≥ 2` frames ahead, is handed over exactly once within the next
-`d − 1` frame interrupts: in the one of frame `(F − 2) mod GSM_MAX_FN`, the `(d − 2)`-th from here. -/
-def WrapFull : Prop :=
-  ∀ (env : Env) (st st' : Sys) (ev : Event) (fn0 : Nat) (frs : List Frame) (outs : List FrameOut),
-    GInv st.g → ev ∈ st.g.active → fn0 < 2715648 → ev.fn < 2715648 →
-    2 ≤ (ev.fn + 2715648 - fn0) % 2715648 → SteppingMod fn0 frs → (∀ fr ∈ frs, FrameNoGexec fr) →
-    frs.length + 1 ≤ (ev.fn + 2715648 - fn0) % 2715648 → runFrames env st frs = .ok (st', outs) →
-    ∀ i o, outs[i]? = some o →
-      (o.calls.filter (fun c => c.slot = ev.slot)).length =
-        if i + 2 = (ev.fn + 2715648 - fn0) % 2715648 then 1 else 0
+instance (fn0 : Nat) (frs : List Frame) : Decidable (SteppingMod fn0 frs) :=
+  decidable_of_iff (∀ i, i < frs.length → ∀ fr, frs[i]? = some fr → fr.fn = (fn0 + i) % 2715648)
+    ⟨fun h i fr hf => h i (TdmaSched.lt_of_get? _ _ _ hf) fr hf, fun h i _ fr hf => h i fr hf⟩
 
-/-- what the model computes: per frame the number of calls made for `slot` -/
-def callCounts (env : Env) (st : Sys) (frs : List Frame) (slot : Nat) : Option (List Nat) :=
-  (runFrames env st frs).toOption.map
-    (fun r => r.2.map (fun o => (o.calls.filter (fun c => c.slot = slot)).length))
-
-/-- every callback reports success -/
-def env0 : Env := fun _ _ _ _ => 0
-
-/-- an item set of one item -/
-def set1 (id p1 : Nat) : List Item := [⟨.fn id, p1, 0, 0, 0, 0⟩, ⟨.endSet, 0, 0, 0, 0, 0⟩]
-
-/-- one request for frame 1 accepted on the initial state (it takes slot 15) -/
-def stWrap : Sys := ⟨(sched init (set1 1 1) 1 7).1, TdmaSched.init 0⟩
-def evWrap : Event := ⟨15, set1 1 1, 1, 7⟩
-/-- the frame interrupts of the last two frames of the hyperframe, without further requests -/
-def frsWrap : List Frame := [⟨2715646, [], []⟩, ⟨2715647, [], []⟩]
-
-/-- **The full statement fails** — a genuine defect of sched_gsmtime.c.  Witness: the event for frame 1 is
-pending when `sched_gsmtime_execute(2715646)` is next (3 frames ahead: frames 2715646, 2715647, 0, 1).  It should
-be handed over in frame 2715647 (`(2715647 + 2) mod 2715648 = 1`); the code compares `1 == 2715649` and makes no
-call.  (It makes none in the frames 0, 1, 2, … either, see the example below: the event is lost, and its slot is
-taken until the next `sched_gsmtime_reset()`.)  The same holds for an event for frame 0. -/
-theorem wrap_full_fails : ¬ WrapFull := by
-  intro h
-  have hc : callCounts env0 stWrap frsWrap 15 = some [0, 0] := by decide +kernel
-  have hsm : SteppingMod 2715646 frsWrap := by
-    intro i fr hfr
-    match i, hfr with
-    | 0, hfr => simp only [frsWrap, List.getElem?_cons_zero, Option.some.injEq] at hfr; rw [← hfr]
-    | 1, hfr =>
-      simp only [frsWrap, List.getElem?_cons_succ, List.getElem?_cons_zero, Option.some.injEq] at hfr
-      rw [← hfr]
-    | n + 2, hfr => simp [frsWrap] at hfr
-  cases hr : runFrames env0 stWrap frsWrap with
-  | error f =>
-    rw [callCounts, hr] at hc
-    have hnone : (none : Option (List Nat)) = some [0, 0] := hc
-    cases hnone
-  | ok r =>
-    obtain ⟨st', outs⟩ := r
-    simp only [callCounts, hr, Except.toOption, Option.map_some, Option.some.injEq] at hc
-    have hl : outs.length = 2 := by
-      have := congrArg List.length hc
-      simpa using this
-    have h1 : outs[1]? = some outs[1] := by simp [hl]
-    have hfull := h env0 stWrap st' evWrap 2715646 frsWrap outs (by decide) (by decide) (by decide) (by decide)
-      (by decide) hsm (by decide) (by decide) hr 1 _ h1
-    have hc1 : (outs.map (fun o => (o.calls.filter (fun c => c.slot = 15)).length))[1]? = some 0 := by
-      rw [hc]; rfl
-    simp only [List.getElem?_map, h1, Option.map_some, Option.some.injEq] at hc1
-    have e1 : evWrap.slot = 15 := rfl
-    have e2 : evWrap.fn = 1 := rfl
-    rw [e1, e2, hc1] at hfull
-    revert hfull
-    decide
-
-/-- **The partial statement**: the full statement holds for every event whose frame is at least
-`SCHEDULE_AHEAD` (`2 ≤ F`), across the hyperframe wrap as well — the excluded region is exactly `F ∈ {0, 1}`. -/
-theorem wrap_partial (env : Env) (st st' : Sys) (ev : Event) (fn0 : Nat) (frs : List Frame)
+/-- **Exactly once, in frame `(F − SCHEDULE_AHEAD) mod GSM_MAX_FN` — across the hyperframe wrap as well.**  An
+event for frame `F < GSM_MAX_FN` that is pending when the next `sched_gsmtime_execute` is the one of frame
+`fn0 < GSM_MAX_FN`, `d ≥ 2` frames ahead, frame numbers stepping by one modulo `GSM_MAX_FN`, no reset: within
+the next `d − 1` frame interrupts exactly one `tdma_schedule_set` call is made for it — in the `(d − 2)`-th from
+here, the one of frame `(F − 2) mod GSM_MAX_FN` — with frame offset 1, its item set and its `p3`.  This includes
+`F ∈ {0, 1}` while `fn` runs through 2715646, 2715647, 0. -/
+theorem wrap_full (env : Env) (st st' : Sys) (ev : Event) (fn0 : Nat) (frs : List Frame)
     (outs : List FrameOut) (hinv : GInv st.g) (hev : ev ∈ st.g.active) (hfn0 : fn0 < 2715648)
-    (hF : ev.fn < 2715648) (hregion : 2 ≤ ev.fn)
-    (hd : 2 ≤ (ev.fn + 2715648 - fn0) % 2715648) (hstep : SteppingMod fn0 frs)
+    (hF : ev.fn < 2715648) (hd : 2 ≤ (ev.fn + 2715648 - fn0) % 2715648) (hstep : SteppingMod fn0 frs)
     (hno : ∀ fr ∈ frs, FrameNoGexec fr) (hlen : frs.length + 1 ≤ (ev.fn + 2715648 - fn0) % 2715648)
     (hrun : runFrames env st frs = .ok (st', outs)) :
     ∀ i o, outs[i]? = some o →
@@ -384,7 +252,7 @@ theorem wrap_partial (env : Env) (st st' : Sys) (ev : Event) (fn0 : Nat) (frs : 
   have htgt : ∀ j, j < frs.length → (target ((fn0 + j) % 2715648) = ev.fn ↔
       j + 2 = (ev.fn + 2715648 - fn0) % 2715648) := by
     intro j hj
-    rw [target_small _ (by omega)]
+    rw [target_mod _ (by omega)]
     omega
   obtain ⟨r1, r2⟩ := fires_at_first_hit env frs st st' outs ev hinv hev hno hrun i _ o hfr ho
     (by
@@ -409,13 +277,66 @@ theorem wrap_partial (env : Env) (st st' : Sys) (ev : Event) (fn0 : Nat) (frs : 
     rw [hnil] at this
     simp at this
 
-/-- **A stale event fires one hyperframe later.**  An event for frame `F ≥ 2` that was accepted too late
-(`(F − fn0) mod GSM_MAX_FN ∈ {0, 1}`: the next `sched_gsmtime_execute` is already the one of frame `F` or `F − 1`)
-and is not removed by a reset stays pending for `GSM_MAX_FN − 2 + d` frame interrupts (3 h 28 min) and is then
-handed over — in frame `F − 2` of the next hyperframe. -/
+/-- **An accepted request fires exactly once, in frame `F − SCHEDULE_AHEAD`.**  A request for frame
+`F < GSM_MAX_FN` accepted while the next `sched_gsmtime_execute` is the one of frame `fn0`, at least 2 frames ahead
+(modulo `GSM_MAX_FN`), no reset: `sched_gsmtime` returns 0, and in the following frame interrupts up to the one
+of frame `(F − 2) mod GSM_MAX_FN` exactly one `tdma_schedule_set` call is made for the new event — in that last
+one — with frame offset 1, the `si` and the `(uint16_t) p3` of the request.  (Called between two frame
+interrupts, after the one of frame `c`, the next `sched_gsmtime_execute` is the one of frame `c + 1`: the request
+must be for `F ≥ c + 3`, which is what `l1a_rach_req` does with `offset += 3`.) -/
+theorem accepted_fires_exactly_once (env : Env) (st st' : Sys) (si : List Item) (F p3 fn0 : Nat)
+    (frs : List Frame) (outs : List FrameOut) (hinv : GInv st.g) (hroom : st.g.active.length < 16)
+    (hfn0 : fn0 < 2715648) (hF : F < 2715648) (hahead : 2 ≤ (F + 2715648 - fn0) % 2715648)
+    (hlen : frs.length + 1 ≤ (F + 2715648 - fn0) % 2715648)
+    (hstep : SteppingMod fn0 frs) (hno : ∀ fr ∈ frs, FrameNoGexec fr)
+    (hrun : runFrames env ⟨(sched st.g si F p3).1, st.s⟩ frs = .ok (st', outs)) :
+    (sched st.g si F p3).2 = 0 ∧
+    ∃ ev ∈ (sched st.g si F p3).1.active, ev.si = si ∧ ev.fn = F ∧ ev.p3 = u16 p3 ∧
+      ∀ i o, outs[i]? = some o →
+        (o.calls.filter (fun c => c.slot = ev.slot)).length =
+          (if i + 2 = (F + 2715648 - fn0) % 2715648 then 1 else 0) ∧
+        ∀ c ∈ o.calls, c.slot = ev.slot → c.off = 1 ∧ c.si = si ∧ c.p3 = u16 p3 := by
+  obtain ⟨ev, h0, h1, h2, h3, _, _, hperm, _, _⟩ := sched_accepts st.g si F p3 hinv hroom
+  have hfn : ev.fn = F := by rw [h2]; simp only [u32]; omega
+  have hmem : ev ∈ (sched st.g si F p3).1.active := hperm.mem_iff.mpr (List.mem_cons_self ..)
+  refine ⟨h0, ev, hmem, h1, hfn, h3, ?_⟩
+  intro i o ho
+  obtain ⟨r1, r2⟩ := wrap_full env ⟨(sched st.g si F p3).1, st.s⟩ st' ev fn0 frs outs
+    (sched_inv st.g si F p3 hinv) hmem hfn0 (by rw [hfn]; exact hF) (by rw [hfn]; exact hahead) hstep hno
+    (by rw [hfn]; exact hlen) hrun i o ho
+  rw [hfn] at r1
+  refine ⟨r1, ?_⟩
+  intro c hc hs
+  obtain ⟨_, c1, c2, c3⟩ := r2 c hc hs
+  exact ⟨by rw [c1]; exact frameOffset_eq, by rw [c2, h1], by rw [c3, h3]⟩
+
+/-- **A request that comes too late does not fire — and blocks nothing.**  An event for frame `F` that is
+pending when the next `sched_gsmtime_execute` is already the one of frame `F` or `F − 1`
+(`d = (F − fn0) mod GSM_MAX_FN ∈ {0, 1}`): in the next `GSM_MAX_FN − 2 + d` frame interrupts no call is made for
+it, and it stays pending (its slot stays taken) — until `sched_gsmtime_reset()`.  That other events fire on time
+in spite of it is `due_event_fires` / `wrap_full`, which hold for every state satisfying the invariant. -/
+theorem stale_never_fires (env : Env) (st st' : Sys) (ev : Event) (fn0 : Nat) (frs : List Frame)
+    (outs : List FrameOut) (hinv : GInv st.g) (hev : ev ∈ st.g.active) (hfn0 : fn0 < 2715648)
+    (hF : ev.fn < 2715648) (hlate : (ev.fn + 2715648 - fn0) % 2715648 < 2)
+    (hlen : frs.length + 2 ≤ (ev.fn + 2715648 - fn0) % 2715648 + 2715648) (hstep : SteppingMod fn0 frs)
+    (hno : ∀ fr ∈ frs, FrameNoGexec fr) (hrun : runFrames env st frs = .ok (st', outs)) :
+    (∀ o ∈ outs, o.calls.filter (fun c => c.slot = ev.slot) = []) ∧ ev ∈ st'.g.active ∧
+      st'.g.active.length ≥ 1 := by
+  have hmiss : ∀ fr ∈ frs, FrameNoGexec fr ∧ target fr.fn ≠ ev.fn := by
+    intro fr hfr
+    obtain ⟨i, hi⟩ := List.mem_iff_getElem?.mp hfr
+    have hlt := TdmaSched.lt_of_get? _ _ _ hi
+    rw [hstep i fr hi, target_mod _ (by omega)]
+    exact ⟨hno fr hfr, by omega⟩
+  obtain ⟨_, h2, h3⟩ := frames_miss env frs st st' outs ev hinv hev hmiss hrun
+  exact ⟨h3, h2, List.length_pos_of_mem h2⟩
+
+/-- **A stale event fires one hyperframe later.**  The event of `stale_never_fires`, if no reset removes it, is
+handed over after `GSM_MAX_FN − 2 + d` frame interrupts (3 h 28 min) — in frame `(F − 2) mod GSM_MAX_FN` of the
+next hyperframe. -/
 theorem stale_fires_next_hyperframe (env : Env) (st st' : Sys) (ev : Event) (fn0 : Nat) (frs : List Frame)
     (outs : List FrameOut) (hinv : GInv st.g) (hev : ev ∈ st.g.active) (hfn0 : fn0 < 2715648)
-    (hF : ev.fn < 2715648) (hregion : 2 ≤ ev.fn)
+    (hF : ev.fn < 2715648)
     (hd : (ev.fn + 2715648 - fn0) % 2715648 < 2) (hstep : SteppingMod fn0 frs)
     (hno : ∀ fr ∈ frs, FrameNoGexec fr)
     (hlen : frs.length + 1 ≤ (ev.fn + 2715648 - fn0) % 2715648 + 2715648)
@@ -430,7 +351,7 @@ theorem stale_fires_next_hyperframe (env : Env) (st st' : Sys) (ev : Event) (fn0
   have htgt : ∀ j, j < frs.length → (target ((fn0 + j) % 2715648) = ev.fn ↔
       j + 2 = (ev.fn + 2715648 - fn0) % 2715648 + 2715648) := by
     intro j hj
-    rw [target_small _ (by omega)]
+    rw [target_mod _ (by omega)]
     omega
   obtain ⟨r1, r2⟩ := fires_at_first_hit env frs st st' outs ev hinv hev hno hrun i _ o hfr ho
     (by
@@ -445,6 +366,24 @@ theorem stale_fires_next_hyperframe (env : Env) (st st' : Sys) (ev : Event) (fn0
     simp only [hh, if_true, hc1, List.length_singleton]
   · have hnil := r1 (fun h => hh ((htgt i hi).mp h))
     simp only [hh, if_false, hnil, List.length_nil]
+
+/-- **Frame numbers outside the hyperframe.**  `fn_sched` is always below `GSM_MAX_FN`: an event accepted for a
+frame number `≥ GSM_MAX_FN` (no caller in the firmware passes one) is never handed over, whatever frame numbers
+`sched_gsmtime_execute` is called with, and keeps its slot until a reset.  (For `fn ≥ 2^32 − 2` — outside the
+firmware's range as well — the sum `fn + SCHEDULE_AHEAD` wraps at 32 bit before it is reduced: `target`.) -/
+theorem out_of_range_never_fires (env : Env) (st st' : Sys) (ev : Event) (frs : List Frame)
+    (outs : List FrameOut) (hinv : GInv st.g) (hev : ev ∈ st.g.active) (hF : 2715648 ≤ ev.fn)
+    (hno : ∀ fr ∈ frs, FrameNoGexec fr) (hrun : runFrames env st frs = .ok (st', outs)) :
+    (∀ o ∈ outs, o.calls.filter (fun c => c.slot = ev.slot) = []) ∧ ev ∈ st'.g.active := by
+  obtain ⟨_, h2, h3⟩ := frames_miss env frs st st' outs ev hinv hev
+    (fun fr hfr => ⟨hno fr hfr, by have := target_lt fr.fn; omega⟩) hrun
+  exact ⟨h3, h2⟩
+
+/-- every callback reports success -/
+def env0 : Env := fun _ _ _ _ => 0
+
+/-- an item set of one item -/
+def set1 (id p1 : Nat) : List Item := [⟨.fn id, p1, 0, 0, 0, 0⟩, ⟨.endSet, 0, 0, 0, 0, 0⟩]
 
 /-! ### reset -/
 
@@ -570,25 +509,29 @@ theorem event_set_runs_at (env : Env) (st : Sys) (ev : Event) (x : AItem Cb) (k 
       simp only [Option.some.injEq]
       exact eq_comm
 
-/-- **The same with frame numbers.**  Frames `fn0, fn0 + 1, …` (stepping by one, no 32-bit wrap), an event for
-frame `F ≥ fn0 + 2` pending at the start: the sequence runs without fault, the event is handed over in the frame
-interrupt of frame `F − 2` (index `F − 2 − fn0`) by exactly one call `c`, and unless `c.rc = −1` the item `x` of
-the k-th frame of its set runs exactly once: in the `tdma_sched_execute()` of frame `F − 1 + k`
-(`fn0 + i + 1 = F + k`), in no other frame. -/
+/-- **The same with frame numbers.**  Frames `fn0, fn0 + 1, …` (stepping by one modulo `GSM_MAX_FN`), an event
+for frame `F`, `d = (F − fn0) mod GSM_MAX_FN ≥ 2` frames ahead, pending at the start: the sequence runs without
+fault, the event is handed over in the interrupt of frame `(F − 2) mod GSM_MAX_FN` (index `d − 2`) by exactly one
+call `c`, and unless `c.rc = −1` the item `x` of the k-th frame of its set runs exactly once: in the
+`tdma_sched_execute()` of the interrupt with index `d − 1 + k` — frame `(F − 1 + k) mod GSM_MAX_FN`, i.e.
+`F − SCHEDULE_LATENCY` for the first frame of the set — in no other. -/
 theorem event_set_runs_in_frame (env : Env) (st : Sys) (ev : Event) (x : AItem Cb) (k : Nat)
-    (f : List (AItem Cb)) (fn0 F : Nat) (frs : List Frame)
+    (f : List (AItem Cb)) (fn0 : Nat) (frs : List Frame)
     (hsafe : Safe env st) (hev : ev ∈ st.g.active)
     (hfresh : ∀ d, d < 25 → x ∉ abs st.s d)
     (hclean : ∀ e ∈ st.g.active, e ≠ ev → x ∉ (framesOf e.p3 e.si).flatten)
     (hdepth : 1 + markers ev.si < 25) (hk : (framesOf ev.p3 ev.si)[k]? = some f) (hx1 : f.count x = 1)
     (hx0 : ∀ k' f', k' ≠ k → (framesOf ev.p3 ev.si)[k']? = some f' → x ∉ f')
-    (hF : ev.fn = F) (hF32 : F < 4294967296) (hahead : fn0 + 2 ≤ F) (hlen : F - 2 - fn0 < frs.length)
-    (hstep : Stepping fn0 frs) (htr : ∀ fr ∈ frs, FrameTraffic env x fr) :
-    ∃ st' outs o c, runFrames env st frs = .ok (st', outs) ∧ outs[F - 2 - fn0]? = some o ∧
+    (hfn0 : fn0 < 2715648) (hF : ev.fn < 2715648) (hahead : 2 ≤ (ev.fn + 2715648 - fn0) % 2715648)
+    (hlen : (ev.fn + 2715648 - fn0) % 2715648 - 2 < frs.length)
+    (hstep : SteppingMod fn0 frs) (htr : ∀ fr ∈ frs, FrameTraffic env x fr) :
+    ∃ st' outs o c, runFrames env st frs = .ok (st', outs) ∧
+      outs[(ev.fn + 2715648 - fn0) % 2715648 - 2]? = some o ∧
       o.calls.filter (fun c => c.slot = ev.slot) = [c] ∧ CallFor ev c ∧
-      (c.rc ≠ -1 → ∀ i o', outs[i]? = some o' → ranCount x o'.exec = if fn0 + i + 1 = F + k then 1 else 0) := by
+      (c.rc ≠ -1 → ∀ i o', outs[i]? = some o' →
+        ranCount x o'.exec = if i + 1 = (ev.fn + 2715648 - fn0) % 2715648 + k then 1 else 0) := by
   have hn := hlen
-  generalize hnd : F - 2 - fn0 = n at hn
+  generalize hnd : (ev.fn + 2715648 - fn0) % 2715648 - 2 = n at hn
   have hsplit : frs = frs.take n ++ [frs[n]] ++ frs.drop (n + 1) := by
     rw [List.append_assoc, List.singleton_append, ← List.drop_eq_getElem_cons hn, List.take_append_drop]
   have htake : ∀ fr ∈ frs.take n, FrameTraffic env x fr ∧ target fr.fn ≠ ev.fn := by
@@ -600,11 +543,11 @@ theorem event_set_runs_in_frame (env : Env) (st : Sys) (ev : Event) (x : AItem C
       simp only [List.length_take] at this
       omega
     rw [List.getElem?_take_of_lt hil] at hi
-    rw [hstep i fr hi, target_small _ (by omega)]
+    rw [hstep i fr hi, target_mod _ (by omega)]
     omega
   have hlast : FrameTraffic env x frs[n] ∧ target frs[n].fn = ev.fn := by
     refine ⟨htr _ (List.getElem_mem hn), ?_⟩
-    rw [hstep n frs[n] (by simp [hn]), target_small _ (by omega)]
+    rw [hstep n frs[n] (by simp [hn]), target_mod _ (by omega)]
     omega
   obtain ⟨st', outs1, o, outs2, c, hrun, hl1, hb, hc0, hc1, hc2, hc3⟩ :=
     event_set_runs_at env st ev x k f (frs.take n) frs[n] (frs.drop (n + 1)) hsafe hev hfresh hclean hdepth hk
@@ -620,14 +563,14 @@ theorem event_set_runs_in_frame (env : Env) (st : Sys) (ev : Event) (x : AItem C
     · rw [List.append_assoc, List.getElem?_append_left (by omega)] at ho'
       have := (hb o' (List.mem_of_getElem? ho')).1
       rw [this]
-      have : ¬ (fn0 + i + 1 = F + k) := by omega
+      have : ¬ (i + 1 = (ev.fn + 2715648 - fn0) % 2715648 + k) := by omega
       simp [this]
     · by_cases h2 : i = n
       · subst h2
         rw [List.append_assoc, List.getElem?_append_right (by omega)] at ho'
         simp only [hl1', Nat.sub_self, List.singleton_append, List.getElem?_cons_zero, Option.some.injEq] at ho'
         rw [← ho', hc0]
-        have : ¬ (fn0 + i + 1 = F + k) := by omega
+        have : ¬ (i + 1 = (ev.fn + 2715648 - fn0) % 2715648 + k) := by omega
         simp [this]
       · rw [List.getElem?_append_right (by simp [hl1']; omega)] at ho'
         simp only [List.length_append, hl1', List.length_singleton] at ho'
@@ -684,7 +627,8 @@ def xEx : AItem Cb := ⟨.fn 2, 12, 0, 9, 5⟩
 -- the hypotheses of `event_set_runs_in_frame` / `event_set_runs_at` hold for it (k = 1: second frame of the set)
 example : Safe env0 (after [(set2, 105, 9)] 7) ∧ evEx ∈ (after [(set2, 105, 9)] 7).g.active ∧
     1 + markers evEx.si < 25 ∧ (framesOf evEx.p3 evEx.si)[1]? = some [xEx] ∧ [xEx].count xEx = 1 ∧
-    Stepping 100 (frames 100 8) ∧ (∀ fr ∈ frames 100 8, FrameTraffic env0 xEx fr) ∧
+    SteppingMod 100 (frames 100 8) ∧ 2 ≤ (evEx.fn + 2715648 - 100) % 2715648 ∧
+    (evEx.fn + 2715648 - 100) % 2715648 - 2 < (frames 100 8).length ∧ (∀ fr ∈ frames 100 8, FrameTraffic env0 xEx fr) ∧
     (∀ e ∈ (after [(set2, 105, 9)] 7).g.active, e ≠ evEx → xEx ∉ (framesOf e.p3 e.si).flatten) := by
   decide +kernel
 example : ∀ d, d < 25 → xEx ∉ abs (after [(set2, 105, 9)] 7).s d := by decide +kernel
@@ -701,28 +645,32 @@ example : ((List.range 17).foldl (fun (acc : GState × List Int) k =>
 example : let g := (after ((List.range 16).map (fun k => (set1 1 k, 50 + k % 3, k))) 0).g
     GInv g ∧ g.active.length = 16 ∧ sched g (set1 1 99) 50 99 = (g, -16) := by decide +kernel
 
--- too late: requests for frames 100 and 101 while frame 100 is next never fire; the on-time requests for 102 and
+-- too late: requests for frames 100 and 101 while frame 100 is next do not fire (not before the next hyperframe); the on-time requests for 102 and
 -- 103 behind them fire (nothing is blocked); the stale events keep their slots (15, 14)
 example : obs env0 (after [(set1 1 1, 100, 1), (set1 1 2, 101, 2), (set1 1 3, 102, 3), (set1 1 4, 103, 4)] 0) (frames 100 5) =
     some [⟨[], 1, [(13, 3, 0)]⟩, ⟨[3], 1, [(12, 4, 0)]⟩, ⟨[4], 0, []⟩, ⟨[], 0, []⟩, ⟨[], 0, []⟩] := by decide +kernel
 example : (runFrames env0 (after [(set1 1 1, 100, 1), (set1 1 2, 101, 2), (set1 1 3, 102, 3)] 0) (frames 100 5)).toOption.map
     (fun r => r.1.g.active.map (fun e => (e.slot, e.fn))) = some [(15, 100), (14, 101)] := by decide +kernel
 
--- the hyperframe wrap.  A request for frame 2 made in frame 2715645 fires in frame 0 (`wrap_partial`) …
+-- the hyperframe wrap (`wrap_full`).  A request for frame 2 made in frame 2715645 fires in frame 0 …
 example : obs env0 (after [(set1 1 1, 2, 7)] 0) (frames 2715646 5) =
     some [⟨[], 0, []⟩, ⟨[], 0, []⟩, ⟨[], 1, [(15, 7, 0)]⟩, ⟨[1], 0, []⟩, ⟨[], 0, []⟩] := by decide +kernel
--- … the requests for frames 0 and 1 never fire (`wrap_full_fails`): not in 2715646 / 2715647 where they are due,
--- and not later; they stay pending
+-- … and the requests for frames 0 and 1 fire in the frames 2715646 and 2715647 (frames 2715645, 2715646,
+-- 2715647, 0, 1, …); their items run in 2715647 and 0; nothing stays pending
 example : obs env0 (after [(set1 1 1, 0, 7), (set1 1 2, 1, 8)] 0) (frames 2715645 8) =
-    some (List.replicate 8 ⟨[], 0, []⟩) := by decide +kernel
+    some ([⟨[], 0, []⟩, ⟨[], 1, [(15, 7, 0)]⟩, ⟨[1], 1, [(14, 8, 0)]⟩, ⟨[2], 0, []⟩] ++
+      List.replicate 4 ⟨[], 0, []⟩) := by decide +kernel
 example : (runFrames env0 (after [(set1 1 1, 0, 7), (set1 1 2, 1, 8)] 0) (frames 2715645 8)).toOption.map
-    (fun r => r.1.g.active.map (fun e => (e.slot, e.fn))) = some [(15, 0), (14, 1)] := by decide +kernel
--- hypotheses of `wrap_partial` at the boundary F = 2, three frames ahead of 2715647
-example : GInv (after [(set1 1 1, 2, 7)] 0).g ∧ (⟨15, set1 1 1, 2, 7⟩ : Event) ∈ (after [(set1 1 1, 2, 7)] 0).g.active ∧
-    2 ≤ (2 + 2715648 - 2715647) % 2715648 ∧ (∀ fr ∈ frames 2715647 2, FrameNoGexec fr) := by decide +kernel
+    (fun r => r.1.g.active.map (fun e => (e.slot, e.fn))) = some [] := by decide +kernel
+-- hypotheses of `wrap_full` for F = 1, three frames ahead of 2715646 (the witness of the defect fixed by F21)
+example : GInv (after [(set1 1 1, 1, 7)] 0).g ∧ (⟨15, set1 1 1, 1, 7⟩ : Event) ∈ (after [(set1 1 1, 1, 7)] 0).g.active ∧
+    (1 + 2715648 - 2715646) % 2715648 = 3 ∧ SteppingMod 2715646 (frames 2715646 2) ∧
+    (∀ fr ∈ frames 2715646 2, FrameNoGexec fr) := by decide +kernel
+example : obs env0 (after [(set1 1 1, 1, 7)] 0) (frames 2715646 3) =
+    some [⟨[], 0, []⟩, ⟨[], 1, [(15, 7, 0)]⟩, ⟨[1], 0, []⟩] := by decide +kernel
 
--- outside the firmware's range of frame numbers the 32-bit sum wraps: sched_gsmtime_execute(4294967295) hands
--- over the event for frame 1
+-- outside the firmware's range of frame numbers the 32-bit sum wraps before it is reduced modulo GSM_MAX_FN:
+-- sched_gsmtime_execute(4294967295) hands over the event for frame 1; an event for a frame >= GSM_MAX_FN stays
 example : obs env0 (after [(set1 1 1, 1, 7)] 0) [fr 4294967294, fr 4294967295, fr 0] =
     some [⟨[], 0, []⟩, ⟨[], 1, [(15, 7, 0)]⟩, ⟨[1], 0, []⟩] := by decide +kernel
 
